@@ -1152,7 +1152,7 @@ fn main() {
     }
     // generated documents
     let (ndocs, max_statements, budget) = if thorough {
-        (2500usize, 10u64, Budget { del: usize::MAX, dup: usize::MAX, sub_pos: 6, sub_kinds: NKINDS, swap: usize::MAX })
+        (1400usize, 10u64, Budget { del: usize::MAX, dup: usize::MAX, sub_pos: 6, sub_kinds: NKINDS, swap: usize::MAX })
     } else {
         (300usize, 5u64, Budget { del: 6, dup: 4, sub_pos: 8, sub_kinds: 1, swap: 4 })
     };
